@@ -287,3 +287,40 @@ Theorem C08_relocation_physical_depth_refuted : exists ops : list op, run_ok ini
   exists p : ppath, In p (ppaths (run init ops)) /\ (8 < length p)%nat.
 Proof. exact RelocProofs.reloc_physical_depth_refuted. Qed.
 End RelocStatements.
+
+(* ---- the whole Rock Ridge image as BYTES: Model/MasterRR.v ------------------------------------------------------
+   master_rr = the bytes of every directory extent (records with their System Use area) and of every continuation block of an
+   ISO9660 + Rock Ridge image; read_rr = an independent SUSP/RRIP reader in the style of the Linux isofs driver (walks the
+   System Use area entry by entry, follows CE into the continuation block, joins NM pieces, reassembles SL, takes PX).
+   For EVERY edit history (state of Model/AccountRR.v; names and targets of any length; versions 1.09/1.10/1.12): the reader
+   recovers every Rock Ridge name, mode (hence kind), link count and symlink target; continuation areas of different records
+   never meet and never lie in the ER sector; the root `.` starts with SP and points through CE at the ER entry of the version. *)
+From PV.Model Require AccountRR MasterRR RRWalk RRPlace.
+From PV.Proofs Require MasterRRImage MasterRRProofs MasterRRRun.
+Section MasterRRStatements.
+Import PV.Model.AccountRR PV.Model.MasterRR.
+Local Open Scope Z_scope.
+
+Theorem C08_rr_reader_recovers_every_entry_after_every_history : forall (v : RREntries.rrv) (ops : list rop) (dt : list Z),
+  v <> RREntries.V_unset -> length dt = 7%nat -> mrr_sizes_ok (rr_run (rr_init v) ops) = true ->
+  exists img : image,
+    master_rr dt (rr_run (rr_init v) ops) = Some img /\
+    read_rr (mrr_fuel (rr_run (rr_init v) ops)) img (mrr_root_extent (rr_run (rr_init v) ops)) (mrr_root_len (rr_run (rr_init v) ops)) =
+    Some (mrr_view (rr_run (rr_init v) ops)).
+Proof. exact MasterRRRun.read_master_rr_run. Qed.
+
+Theorem C08_rr_reader_recovers_every_entry : forall dt s, length dt = 7%nat -> mrr_wf dt s = true ->
+  exists img, master_rr dt s = Some img /\ read_rr (mrr_fuel s) img (mrr_root_extent s) (mrr_root_len s) = Some (mrr_view s).
+Proof. exact MasterRRProofs.read_master_rr. Qed.
+
+Theorem C08_rr_continuation_areas_disjoint_after_every_history : forall (v : RREntries.rrv) (ops : list rop) (dt : list Z),
+  v <> RREntries.V_unset -> length dt = 7%nat -> mrr_sizes_ok (rr_run (rr_init v) ops) = true ->
+  forall (q1 q2 : list nat) (n1 n2 : rnode) (i1 : nat) (o1 l1 : Z) (i2 : nat) (o2 l2 : Z), q1 <> q2 ->
+  mrr_node_at (r_root (rr_run (rr_init v) ops)) q1 = Some n1 -> mrr_node_at (r_root (rr_run (rr_init v) ops)) q2 = Some n2 ->
+  m_ce (meta_of n1) = Some (i1, o1, l1) -> m_ce (meta_of n2) = Some (i2, o2, l2) ->
+  (mrr_ce_ext (r_root (rr_run (rr_init v) ops)) (mrr_layout (rr_run (rr_init v) ops)) i1 <>
+   mrr_ce_ext (r_root (rr_run (rr_init v) ops)) (mrr_layout (rr_run (rr_init v) ops)) i2 \/ o1 + l1 <= o2 \/ o2 + l2 <= o1) /\
+  mrr_start (rr_run (rr_init v) ops) <= mrr_ce_ext (r_root (rr_run (rr_init v) ops)) (mrr_layout (rr_run (rr_init v) ops)) i1 /\
+  mrr_ce_ext (r_root (rr_run (rr_init v) ops)) (mrr_layout (rr_run (rr_init v) ops)) i1 < l_er (mrr_layout (rr_run (rr_init v) ops)).
+Proof. exact MasterRRRun.master_rr_areas_disjoint_run. Qed.
+End MasterRRStatements.
